@@ -178,6 +178,7 @@ def finish(
                 "instances": r.instances,
                 "notes": r.notes,
                 "informational": r.informational[:20],
+                "inconclusive": getattr(r, "error", None),
             }
             for r in results
         ],
@@ -210,8 +211,15 @@ def finish(
                 r.rule, r.discharged + sum(1 for f, _ in known_hits if f.rule == r.rule), r.obligations, r.title
             )
         )
+    inconclusive = [r for r in results if getattr(r, "error", None)]
+    for r in inconclusive:
+        print("INCONCLUSIVE property={} rule={} {}".format(property_id, r.rule, r.error))
     if violations:
         return 1
+    if inconclusive:
+        print("ANALYSIS-ERROR property={} {}".format(property_id, inconclusive[0].error))
+        return 2
+    vacuous = [r for r in vacuous if not getattr(r, "error", None)]
     if vacuous:
         for r in vacuous:
             print(
@@ -224,3 +232,46 @@ def finish(
     print("OK property={} tier={} obligations={} known_findings={}".format(
         property_id, tier, obligations, len(known_hits)))
     return 0
+
+
+def shared(r: "RuleResult", new_id: str, title: str, consequence: str = "", min_instances: int = 1, only=None) -> "RuleResult":
+    """Re-issue the verdict of a rule under another property's id (one structural fact can be a
+    necessary condition of several properties).  `only(finding_or_case_function)` restricts it."""
+    rr = RuleResult(new_id, title, min_instances=min_instances)
+    for f in r.findings:
+        if only is None or only(f.function):
+            rr.bad(Finding(new_id, f.file, f.function, f.construct, f.message + (("; " + consequence) if consequence else ""), f.line))
+    cases = {c for c in r.cases if only is None or only(c[0])}
+    rr.cases = cases
+    rr.obligations = len(cases)
+    rr.discharged = len(cases) - len(rr.findings)
+    rr.samples = list(r.samples)
+    return rr
+
+
+def guard_rules(module) -> None:
+    """Wrap every rule function of a property module so that an AnalysisError raised by one rule makes
+    *that rule* inconclusive instead of aborting the whole property: a definite violation found by
+    another rule is still reported (exit 1); with no violation an inconclusive rule gives exit 2."""
+    import functools
+
+    for name in list(vars(module)):
+        fn = getattr(module, name)
+        if not callable(fn) or not (name.startswith("rule_") or name in ("paired_counter_findings",)) or getattr(fn, "_guarded", False):
+            continue
+
+        def make(fn=fn, name=name):
+            @functools.wraps(fn)
+            def wrapper(*a, **kw):
+                try:
+                    return fn(*a, **kw)
+                except AnalysisError as e:
+                    pid = module.__name__.rsplit(".", 1)[-1].upper()
+                    rid = "{}.{}".format(pid, name.replace("rule_r", "R").replace("rule_", ""))
+                    rr = RuleResult(rid, "(inconclusive) " + (fn.__doc__ or name).strip().split("\n")[0][:80], min_instances=0)
+                    rr.error = str(e)
+                    return rr
+            wrapper._guarded = True
+            return wrapper
+
+        setattr(module, name, make())
